@@ -470,3 +470,95 @@ def h_gate(mi: int, cver: int, pver: int, ti: int, scen: int, chan: int):
             reached("gate_no_cookie_blocked")
         assert not h.ran, "%s reached the handler without a valid XSRF token (scenario %d)" % (method, scen)
         assert conn.status == 403, "%s: rejection must be 403, got %r" % (method, conn.status)
+
+
+# ------------------------------------------------------------------------------------------ 4
+# Combinations of token channels in ONE request.  Documented precedence: `_xsrf` argument, then X-XSRFToken,
+# then X-CSRFToken, an EMPTY value counting as absent.  Accepted iff the first non-empty channel holds a token
+# that decodes to the cookie's secret.
+def run_request_multi(method, cookie, form, hx, hc, settings):
+    with install() as env:
+        app = make_app(xsrf_cookies=True, **settings)
+        headers = []
+        if cookie is not None:
+            headers.append(("Cookie", "_xsrf=" + cookie))
+        if hx is not None:
+            headers.append(("X-XSRFToken", hx))
+        if hc is not None:
+            headers.append(("X-CSRFToken", hc))
+        req, conn = make_request(method, "/x", headers)
+        if form is not None:
+            req.arguments = {"_xsrf": [utf8(form)]}
+            req.body_arguments = {"_xsrf": [utf8(form)]}
+        h = H(app, req)
+        t = env.spawn(h._execute([]))
+        env.run_ready()
+        assert t.done(), "handler task not done"
+        assert t.exception() is None, "handler task raised %r" % (t.exception(),)
+        assert not env.v.exc_contexts, "exception escaped a callback: %r" % (env.v.exc_contexts,)
+    assert conn.finished, "response not finished"
+    return h, conn
+
+
+CONTENT = ("absent", "empty", "valid", "wrong", "blank")     # "blank" = one space (form values are stripped)
+
+
+def pre_chan(um: int, cver: int, pver: int, fa: int, xa: int, ca: int) -> bool:
+    if P.nshards > 1 and fa != P.shard:
+        return False
+    return (0 <= um < len(UNSAFE) and 1 <= cver <= 2 and 1 <= pver <= 2
+            and 0 <= fa < len(CONTENT) and 0 <= xa < 4 and 0 <= ca < 4)
+
+
+@harness(pre=pre_chan, quick=dict(timeout=200, reach_timeout=90), thorough=dict(timeout=600),
+         nshards=dict(quick=len(CONTENT), thorough=len(CONTENT)),
+         reach=["blank_form_valid_header_accepted", "wrong_form_valid_header_rejected",
+                "empty_xsrf_header_valid_csrf_header_accepted", "valid_then_garbage_accepted", "all_empty_rejected"],
+         units=["web.RequestHandler.check_xsrf_cookie", "web.RequestHandler.get_argument",
+                "web.RequestHandler._decode_xsrf_token", "web.RequestHandler._execute"],
+         stubs=STUBS + ["all three token channels populated at once, each with one of {absent, empty, token issued by the real "
+                        "xsrf_token() for the cookie, another session's token} (form field additionally: a single space, "
+                        "which get_argument strips to empty); method from {POST, PATCH, PUT, DELETE, PURGE}; cookie v1/v2, "
+                        "token v1/v2; concrete pooled token/mask bytes"],
+         outside=OUTSIDE)
+def h_channels(um: int, cver: int, pver: int, fa: int, xa: int, ca: int):
+    method = _pick(UNSAFE, um)
+    fa, xa, ca = _pick(CONTENT, fa), _pick(CONTENT[:4], xa), _pick(CONTENT[:4], ca)
+    tk, other = bytes([GT[0]]), bytes([GT[1]])
+    m1 = bytes([X1P[1], 0x5a, 0x00, 0xff])
+    m2 = bytes([X2P[0], 0x5a, 0x00, 0xff])
+    RANDOM["token"] = tk
+    cookie = v1(tk) if cver == 1 else v2(m1, tk)
+    valid, _ = issue_token(cookie, pver, m2)
+    wrong = v2(m2, other) if pver == 2 else v1(other)
+    RANDOM["token"] = b"\xfe"
+    RANDOM["masks"] = []
+
+    def content(kind):
+        return {"absent": None, "empty": "", "valid": valid, "wrong": wrong, "blank": " "}[kind]
+
+    h, conn = run_request_multi(method, cookie, content(fa), content(xa), content(ca),
+                                dict(xsrf_cookie_version=pver))
+    # reference: first non-empty channel in the documented order decides
+    decisive = None
+    for kind in (fa, xa, ca):
+        if kind in ("valid", "wrong"):
+            decisive = kind
+            break
+    if decisive == "valid":
+        if fa in ("empty", "blank") and xa == "valid":
+            reached("blank_form_valid_header_accepted")
+        if fa in ("absent", "empty", "blank") and xa == "empty" and ca == "valid":
+            reached("empty_xsrf_header_valid_csrf_header_accepted")
+        if xa == "valid" and ca == "wrong":
+            reached("valid_then_garbage_accepted")
+        assert h.ran and conn.status == 200, \
+            "%s form=%s X-XSRFToken=%s X-CSRFToken=%s: the first non-empty channel holds the issued token but the " \
+            "request was rejected (%r)" % (method, fa, xa, ca, conn.status)
+    else:
+        if fa == "wrong" and xa == "valid":
+            reached("wrong_form_valid_header_rejected")
+        if decisive is None:
+            reached("all_empty_rejected")
+        assert not h.ran, "%s form=%s X-XSRFToken=%s X-CSRFToken=%s reached the handler" % (method, fa, xa, ca)
+        assert conn.status == 403, "rejection must be 403, got %r" % (conn.status,)
